@@ -341,7 +341,7 @@ def execute(case):
     cl = run.classes
     cl += ["entry=" + entry, "metric=" + name, "dtype=" + case["data"]["dtype"],
            "layout=" + case["data"]["layout"], "kind=" + case["data"]["kind"],
-           "jitter=%s" % (case["data"]["jitter"] is not None)]
+           "jitter=%s" % (case["data"]["jitter"] is not None), "readonly=%s" % bool(case["data"].get("readonly"))]
     if entry in KC_FAMILY:
         cfg = case["kc"]
         init = _init_centers(run, cfg)
